@@ -241,17 +241,17 @@ func (e *Engine) merge2(a, b *State) (res *State, ok bool) {
 		}
 	}
 	// heap
-	for id, ob := range b.Heap {
-		oa, ok := n.Heap[id]
-		if !ok {
-			n.Heap[id] = ob
-			continue
+	b.eachObjDiff(n, func(id ObjID, ob *Object) {
+		oa := n.lookupObj(id)
+		if oa == nil {
+			n.setObj(id, ob)
+			return
 		}
 		if oa == ob {
-			continue
+			return
 		}
 		m.object(n, id, oa, ob)
-	}
+	})
 	// quiescence callbacks, tags
 	if len(n.Quiesce) != len(b.Quiesce) {
 		fail("quiesce count")
@@ -314,6 +314,14 @@ func (e *Engine) merge2(a, b *State) (res *State, ok bool) {
 	// known literals: keep what both agree on
 	for k, v := range n.Known {
 		if bv, ok := b.Known[k]; !ok || bv != v {
+			if n.knownShared {
+				nk := make(map[*term.Term]bool, len(n.Known))
+				for a, c := range n.Known {
+					nk[a] = c
+				}
+				n.Known = nk
+				n.knownShared = false
+			}
 			delete(n.Known, k)
 		}
 	}
@@ -437,11 +445,11 @@ func (m *merger) object(n *State, id ObjID, oa, ob *Object) {
 			}
 		}
 		if !positional {
-			for _, o := range n.Heap {
+			n.eachObj(func(_ ObjID, o *Object) {
 				if o.Kind == OIter && o.IterMap == id && o.IterIdx > 0 && o.IterIdx < len(oa.Ents) {
 					fail("map reordered under an active iterator")
 				}
-			}
+			})
 		}
 		w := n.objW(id)
 		usedB := make([]bool, len(ob.Ents))
